@@ -226,6 +226,23 @@ Theorem unresolved_exact refs ps :
   unresolved (resolve_args refs (flatten ps)) = spec_unresolved refs ps.
 Proof. intros S C. rewrite (exact refs ps S). apply unresolved_spec, C. Qed.
 
+Theorem unresolved_iff : forall refs ps,
+  separated refs ps -> colon_free refs ps ->
+  (unresolved (resolve_args refs (flatten ps)) = true <->
+   exists t, In (Tok t) ps /\ forall r, In r refs -> denotes r t = false).
+Proof.
+  intros refs ps S C. rewrite (unresolved_exact refs ps S C). unfold spec_unresolved.
+  rewrite existsb_exists. split.
+  - intros [[s|t] [I U]]; [discriminate|]. exists t. split; [exact I|]. cbn in U.
+    apply negb_true_iff in U. unfold declared in U. intros r Hr.
+    destruct (denotes r t) eqn:D; [|reflexivity].
+    assert (X : existsb (fun r => denotes r t) refs = true) by (apply existsb_exists; exists r; auto).
+    congruence.
+  - intros [t [I U]]. exists (Tok t). split; [exact I|]. cbn. apply negb_true_iff.
+    unfold declared. destruct (existsb (fun r => denotes r t) refs) eqn:X; [|reflexivity].
+    apply existsb_exists in X as [r [Hr D]]. rewrite (U r Hr) in D. discriminate.
+Qed.
+
 Lemma colon_freeb_sound refs ps : colon_freeb refs ps = true -> colon_free refs ps.
 Proof.
   unfold colon_freeb. rewrite andb_true_iff, !forallb_forall. intros [H1 H2]. repeat split.
